@@ -1089,6 +1089,33 @@ def stage_C(ctx: Any) -> None:
                                   "error": True, "blocker": blocker, "once": False, "msg": "m", "parent": None}
                             exprs.append(f"Bool.eqb (is_ignored_error {d} {e} {cz(line)} {c_info(ii)} {c_dict(list(ign))}) {cb(got)}")
                             meta.append(f"is_ignored_error dis={dis} en={en} line={line} code={c} blocker={blocker} ignores={ign}")
+    # the code table regenerated from errorcodes.py = the real ErrorCode objects; every table code against own / parent /
+    # unrelated names in a coded ignore (sub_code_of is honoured exactly one level)
+    try:
+        table = t13.code_table()
+    except Exception as e:  # noqa: BLE001
+        table = []
+        ctx.broke("T", "t13 code table", repr(e))
+    real_objs = {(v.code, v.sub_code_of.code if v.sub_code_of else None, bool(v.default_enabled)): v
+                 for v in vars(codes_mod).values() if isinstance(v, codes_mod.ErrorCode)}
+    if table and set(table) != set(real_objs):
+        ctx.broke("C", "code table vs mypy.errorcodes", f"only in table: {sorted(set(table) - set(real_objs), key=str)[:5]}; "
+                  f"only in mypy: {sorted(set(real_objs) - set(table), key=str)[:5]}")
+    o.disabled_error_codes, o.enabled_error_codes = set(), {v for v in real_objs.values() if not v.default_enabled}
+    en_all = clist([cs(k[0]) for k in real_objs if not k[2]])
+    children: dict[str, str] = {k[1]: k[0] for k in real_objs if k[1]}
+    for key in sorted(set(table) & set(real_objs), key=str):
+        obj = real_objs[key]
+        info = E.ErrorInfo(import_ctx=[], local_ctx=(None, None), line=3, column=0, end_line=3, end_column=1, severity="error",
+                           message="m", code=obj, blocker=False, only_once=False, module="m", target=None)
+        names = [key[0], key[1] or "misc", children.get(key[0], "override"), real_objs.get((key[1], None, True), obj).sub_code_of and "x" or "syntax"]
+        for nm in dict.fromkeys(names):
+            got = errs.is_ignored_error(3, info, {3: [nm]})
+            cd = {"name": key[0], "sub": key[1], "dflt": key[2], "orig": None}
+            ii = {"id": 0, "line": 3, "col": 0, "span": [3], "code": cd, "error": True, "blocker": False, "once": False, "msg": "m", "parent": None}
+            exprs.append(f"Bool.eqb (is_ignored_error [] {en_all} {cz(3)} {c_info(ii)} {c_dict([(3, [nm])])}) {cb(got)}")
+            meta.append(f"is_ignored_error table code={key} ignore=[{nm}]")
+    ctx.cov["code_table_size"] = len(table)
     n_pred = len(exprs)
     # count_stats + exit status on generated message lists
     import ast
